@@ -11,6 +11,18 @@ def hook_commits():
         return []
 
 CHECKS = {
+ "C05": dict(cat="exploration",
+   text="Round trip through the real writer and reader on in-memory streams: boundary-complete enumeration of unsigned integers and string lengths (all width / length classes, multi-byte characters across the boundaries), every Data variant, mixed sequences; generated and hand-written models compared by canonical dump after write+read, also with ids moved to every width boundary; and (document, path) pairs executed on the original and on the reloaded model with equal traces.",
+   note="Trusted: canon.rs (canonical dump; fields the format does not persist by design are excluded: version, file, tracer, timer, isFirstEntry, parent_state_name of <send>/<invoke> with explicit id). Generated send/invoke ids contain a process-global counter and are not compared.",
+   tech="round-trip identity monitor on real writer/reader + behavioural trace equality", ref="DESIGN.md §5 C05"),
+ "C18": dict(cat="fault_enumeration",
+   text="Per image exhaustive fault enumeration against the real reader/writer: every strict prefix (crash point) must be rejected without panic, the complete image must survive arbitrarily short reads, and a failing / interrupted / short-writing sink at every write-call position must either yield the complete image or be visible in has_error().",
+   note="Images are a sample (hand-written feature documents + generated ones); per image the enumeration is complete. Trusted: faultio.rs streams, canon.rs.",
+   tech="fault injection at the byte-stream boundary, exhaustive per image, with outcome oracle", ref="DESIGN.md §5 C18"),
+ "C19": dict(cat="exploration",
+   text="Probe sessions in the real interpreter decide for (descriptor list, event name) pairs which transition is selected; compared with an independent 10-line token-prefix oracle. All pairs with <= 2 tokens per side over a 14-token alphabet with shared prefixes, case variants and multi-byte tokens are enumerated completely; delivery by host, <raise> and internal <send>.",
+   note="Trusted: the oracle in c19.rs and the enabledTransitions trace. Descriptors with more than one trailing '.'/'.*' suffix are not generated (meaning not fixed by the statement).",
+   tech="differential runtime oracle via probe sessions, exhaustive small scope", ref="DESIGN.md §5 C19"),
  "C01": dict(cat="exploration",
    text="Model-free legality monitor over real executions: a shadow configuration built from the tracer's ENTER/EXIT events is compared with samples of the real configuration (end of every microstep, every idle point, inside every probe action, reported final configuration) and every quiescent sample is checked against the five legality clauses; ~10^4 generated documents x guided event paths per quick run in three data models plus a fixed core corpus.",
    note="Trusted: the recording tracer / mark action (harness/src/rec.rs), the legality predicate (legality.rs) and the generator's notion of a conformant document. Samples mid-microstep are only compared, not required to be legal.",
